@@ -163,6 +163,7 @@ void h_SEQUENCE_decode_ber_chunked(void) {
 			__CPROVER_assert(T_eq((struct T *)st1, (struct T *)st2), "C05: same value");
 		}
 	}
+	SEQUENCE_free(&T_td, st1, ASFM_FREE_EVERYTHING); SEQUENCE_free(&T_td, st2, ASFM_FREE_EVERYTHING);
 }
 
 VF_NATIVE_MAIN
